@@ -480,3 +480,268 @@ Fixpoint has_right_n (n : rnode) (k : list bool) : hres :=
   end.
 Definition has_right (n : option rnode) (k : list bool) : hres :=
   match n with Some n' => has_right_n n' k | None => HasR false end.
+
+(* ---------- proofToPath: resolve the path of a key inside the heap, linking the objects ---------- *)
+Definition hput (hp : heap) (h : F) (n : hnode) : heap := pput F feq hp h n.
+Definition link (n : hnode) (msb : bool) (r : href) : hnode :=
+  match n with
+  | HEdge p _ => HEdge p r
+  | HBin l r0 => if msb then HBin l r else HBin r r0
+  end.
+
+Inductive ptp_res := PtpOk (hp : heap) (val : option F) | PtpErr | PtpFuel.
+
+Fixpoint ptp (fuel : nat) (hp : heap) (parent : F) (k : list bool) (allow_ne : bool) : ptp_res :=
+  match fuel with
+  | O => PtpFuel
+  | S fuel' =>
+      match pget F feq hp parent with
+      | None => PtpErr
+      | Some n =>
+          let msb := bit_at k 0 in
+          let '(child, k') :=
+            match n with
+            | HEdge p c => if pmatch p k then (c, skipn (length p) k) else (HNil, k)
+            | HBin l r => ((if msb then r else l), tl k)
+            end in
+          match child with
+          | HNil => if allow_ne then PtpOk hp None else PtpErr
+          | HRef h => ptp fuel' hp h k' allow_ne
+          | HHash x =>
+              match pget F feq hp x with
+              | None => PtpErr                                  (* proof node not found *)
+              | Some _ => ptp fuel' (hput hp parent (link n msb (HRef x))) x k' allow_ne
+              end
+          | HVal v => PtpOk hp (Some v)
+          end
+      end
+  end.
+
+(* proofToPath(rootHash, root, key, proof, allow): the root object is the one stored under rootHash *)
+Definition proof_to_path (hp : heap) (root : F) (k : list bool) (allow_ne : bool) : ptp_res :=
+  match pget F feq hp root with
+  | None => PtpErr
+  | Some _ => ptp (S (length k) * S (length hp)) hp root k allow_ne
+  end.
+
+(* ---------- unset / unsetInternal ---------- *)
+(* parent (type-asserted to BinaryNode).Children[bit] = nil ; None = the type assertion panics *)
+Definition cut_child (hp : heap) (parent : F) (bit : bool) : option heap :=
+  match pget F feq hp parent with
+  | Some (HBin l r) => Some (hput hp parent (if bit then HBin l HNil else HBin HNil r))
+  | _ => None
+  end.
+(* key.Bit(pos-1) with uint8 pos: position 255 is out of range for pos = 0 *)
+Definition bit_before (k : list bool) (pos : nat) : bool :=
+  match pos with O => false | S p => bit_at k p end.
+
+Inductive ures := UOk (hp : heap) | UPanic | UFuel.
+
+Fixpoint unset (fuel : nat) (hp : heap) (parent : F) (child : href) (key : list bool) (pos : nat)
+               (remove_left : bool) : ures :=
+  match fuel with
+  | O => UFuel
+  | S fuel' =>
+      match child with
+      | HRef c =>
+          match pget F feq hp c with
+          | None => UPanic
+          | Some (HBin l r) =>
+              let kb := bit_at key pos in
+              let l' := if remove_left && kb then HNil else l in
+              let r' := if negb remove_left && negb kb then HNil else r in
+              unset fuel' (hput hp c (HBin l' r')) c (if kb then r' else l') key (S pos) remove_left
+          | Some (HEdge p gc) =>
+              let key_pos := skipn pos key in
+              let key_bit := bit_before key pos in
+              if negb (pmatch p key_pos) then
+                let ep := p ++ zeros (length key_pos - length p) in
+                let c := bcmp ep key_pos in
+                if (if remove_left then is_lt c else is_gt c)
+                then match cut_child hp parent key_bit with Some hp' => UOk hp' | None => UPanic end
+                else UOk hp
+              else match gc with
+                   | HVal _ => match cut_child hp parent key_bit with Some hp' => UOk hp' | None => UPanic end
+                   | _ => unset fuel' hp c gc key (pos + length p) remove_left
+                   end
+          end
+      | _ => UOk hp                                          (* nil, HashNode, ValueNode *)
+      end
+  end.
+
+Inductive uires := UIOk (empty : bool) (hp : heap) | UIErr | UIPanic | UIFuel.
+Definition of_ures (u : ures) : uires :=
+  match u with UOk hp => UIOk false hp | UPanic => UIPanic | UFuel => UIFuel end.
+Definition cut_or_empty (hp : heap) (parent : option F) (bit : bool) : uires :=
+  match parent with
+  | None => UIOk true hp                                      (* the fork point is the root: unset the entire trie *)
+  | Some pk => match cut_child hp pk bit with Some hp' => UIOk false hp' | None => UIPanic end
+  end.
+
+Definition handle_edge_fork (fuel : nat) (hp : heap) (nk : F) (p : list bool) (c : href) (parent : option F)
+    (left right : list bool) (pos : nat) (efl efr : comparison) : uires :=
+  if is_lt efl && is_lt efr then UIErr
+  else if is_gt efl && is_gt efr then UIErr
+  else if negb (is_eq efl) && negb (is_eq efr) then cut_or_empty hp parent (bit_before left pos)
+  else if negb (is_eq efr) then
+    match c with
+    | HVal _ => cut_or_empty hp parent (bit_before left pos)
+    | _ => of_ures (unset fuel hp nk c (skipn pos left) (length p) false)
+    end
+  else if negb (is_eq efl) then
+    match c with
+    | HVal _ => cut_or_empty hp parent (bit_before right pos)
+    | _ => of_ures (unset fuel hp nk c (skipn pos right) (length p) true)
+    end
+  else UIOk false hp.
+
+Definition bin_child (n : option hnode) (b : bool) : href :=
+  match n with Some (HBin l r) => if b then r else l | _ => HNil end.
+
+Definition handle_binary_fork (fuel : nat) (hp : heap) (nk : F) (l r : href) (left right : list bool) (pos : nat) : uires :=
+  let lb := bit_at left pos in
+  let rb := bit_at right pos in
+  let r1 := if negb lb && negb rb then HNil else r in
+  let l1 := if lb && rb then HNil else l in
+  let hp1 := hput hp nk (HBin l1 r1) in
+  match unset fuel hp1 nk (if lb then r1 else l1) (skipn pos left) 1 false with
+  | UOk hp2 => of_ures (unset fuel hp2 nk (bin_child (pget F feq hp2 nk) rb) (skipn pos right) 1 true)
+  | u => of_ures u
+  end.
+
+Definition is_hnil (r : href) : bool := match r with HNil => true | _ => false end.
+(* leftnode != rightnode: interface values holding pointers *)
+Definition same_ptr (lb rb : bool) (a b : href) : bool :=
+  if Bool.eqb lb rb then true
+  else match a, b with HRef x, HRef y => feq x y | _, _ => false end.
+
+Fixpoint unset_internal (fuel : nat) (hp : heap) (n : href) (parent : option F) (left right : list bool)
+                        (pos : nat) : uires :=
+  match fuel with
+  | O => UIFuel
+  | S fuel' =>
+      match n with
+      | HRef nk =>
+          match pget F feq hp nk with
+          | None => UIPanic
+          | Some (HEdge p c) =>
+              let fork k :=
+                if length k - pos <? length p then bcmp (skipn pos k) p
+                else bcmp (subset k pos (pos + length p)) p in
+              let efl := fork left in
+              let efr := fork right in
+              if is_eq efl && is_eq efr then unset_internal fuel' hp c (Some nk) left right (pos + length p)
+              else handle_edge_fork (S (length left) * S (length hp)) hp nk p c parent left right pos efl efr
+          | Some (HBin l r) =>
+              let lb := bit_at left pos in
+              let rb := bit_at right pos in
+              let ln := if lb then r else l in
+              let rn := if rb then r else l in
+              if is_hnil ln || is_hnil rn || negb (same_ptr lb rb ln rn)
+              then handle_binary_fork (S (length left) * S (length hp)) hp nk l r left right pos
+              else unset_internal fuel' hp ln (Some nk) left right (S pos)
+          end
+      | _ => UIPanic                                         (* panic("%T: invalid node") *)
+      end
+  end.
+
+(* ---------- VerifyRangeProof ---------- *)
+Inductive rres := ROk (more : bool) | RErr | RPanic | RFuel.
+
+Fixpoint proof_data_ok (kvs : list (list bool * F)) : bool :=
+  match kvs with
+  | [] => true
+  | (k, v) :: r =>
+      (match r with (k2, _) :: _ => negb (is_gt (bcmp k k2)) | [] => true end)
+      && negb (fzero v) && proof_data_ok r
+  end.
+
+Definition of_hres (h : hres) : rres := match h with HasR b => ROk b | HPanic => RPanic end.
+
+Definition rebuild_and_compare (root : F) (t : option rnode) (kvs : list (list bool * F)) (k : rres) : rres :=
+  match rinsert_all t kvs with
+  | TOk t' => if feq (rroot t') root then k else RErr       (* root hash mismatch *)
+  | TErr => RErr
+  | TPanic => RPanic
+  end.
+
+Definition verify_range2 (root : F) (first : list bool) (kvs : list (list bool * F))
+                         (proof : option (pset2 F)) : rres :=
+  if negb (proof_data_ok kvs) then RErr else
+  match proof with
+  | None => rebuild_and_compare root None kvs (ROk false)     (* no edge proof: the whole trie *)
+  | Some ps =>
+      let hp0 := heap_of ps in
+      let ufuel := S (length hp0) in
+      match kvs with
+      | [] =>                                                 (* verifyEmptyRangeProof *)
+          match proof_to_path hp0 root first true with
+          | PtpOk hp1 val =>
+              match unfold ufuel hp1 (HRef root) with
+              | None => RFuel
+              | Some t =>
+                  match val with
+                  | Some _ => RErr
+                  | None => match has_right t first with
+                            | HasR true => RErr               (* more entries available *)
+                            | HasR false => ROk false
+                            | HPanic => RPanic
+                            end
+                  end
+              end
+          | PtpErr => RErr
+          | PtpFuel => RFuel
+          end
+      | (k0, v0) :: rest =>
+          let last := fst (List.last kvs (k0, v0)) in
+          if (match rest with [] => true | _ => false end) && is_eq (bcmp first last) then   (* verifySingleElementProof *)
+            match proof_to_path hp0 root k0 false with
+            | PtpOk hp1 val =>
+                match val with
+                | Some v => if feq v0 v
+                            then match unfold ufuel hp1 (HRef root) with
+                                 | None => RFuel
+                                 | Some t => of_hres (has_right t k0)
+                                 end
+                            else RErr
+                | None => RErr
+                end
+            | PtpErr => RErr
+            | PtpFuel => RFuel
+            end
+          else if negb (is_gt (bcmp last first)) then RErr     (* last key is less than first key *)
+          else                                                 (* verifyRangeWithProof *)
+            match proof_to_path hp0 root first true with
+            | PtpOk hp1 _ =>
+                match proof_to_path hp1 root last true with
+                | PtpOk hp2 _ =>
+                    match unset_internal (S (length first) * S (length hp2)) hp2 (HRef root) None first last 0 with
+                    | UIOk empty hp3 =>
+                        match unfold ufuel hp3 (HRef root) with
+                        | None => RFuel
+                        | Some t => rebuild_and_compare root (if empty then None else t) kvs (of_hres (has_right t last))
+                        end
+                    | UIErr => RErr
+                    | UIPanic => RPanic
+                    | UIFuel => RFuel
+                    end
+                | PtpErr => RErr
+                | PtpFuel => RFuel
+                end
+            | PtpErr => RErr
+            | PtpFuel => RFuel
+            end
+      end
+  end.
+
+End Range2.
+Arguments HNil {F}. Arguments HRef {F}. Arguments HHash {F}. Arguments HVal {F}.
+Arguments HBin {F}. Arguments HEdge {F}. Arguments RVal {F}. Arguments RHash {F}. Arguments REdge {F}. Arguments RBin {F}.
+
+(* term-level entry points for trie2 range proofs (VerifyRangeProof is fixed to Pedersen) *)
+Definition h_range_proof2 (t : htree) (l r : list bool) : pset2 hterm :=
+  let s := set_of2 hterm heqb HP HB HA (h_prove2 false t l) in
+  if bits_eqb l r then s else add2 hterm heqb HP HB HA s (h_prove2 false t r).
+Definition h_range2 (t : htree) (first : list bool) (kvs : list (list bool * hterm))
+                    (proof : option (pset2 hterm)) : rres :=
+  verify_range2 hterm heqb hzero HP HB HA (HC 0) (h_root false t) first kvs proof.
